@@ -49,6 +49,8 @@ type Engine struct {
 	globalConst  map[*types.Var]Term
 	realSpecMemo map[string]bool
 	usedAxioms   map[string]string
+	recMemo      map[string]bool
+	curFuel      int
 	usedLemmas   map[string]bool
 }
 
@@ -74,7 +76,7 @@ func NewEngine(repo string) (*Engine, error) {
 		globalSeen: map[string]bool{}, strs: map[string]Term{}, fls: map[string]Term{}, fns: map[string]Term{}, fnObjs: map[string]*types.Func{},
 		addrs: map[types.Object]Term{}, heapElemSort: map[string]string{}, usedSpecs: map[string]bool{}, notes: map[string][]string{},
 		trusted: map[string]bool{}, assumed: map[string]bool{}, globalInit: map[*types.Var]*globalInfo{}, globalConst: map[*types.Var]Term{},
-		specConsts: map[string]Term{}, realSpecMemo: map[string]bool{}, usedAxioms: map[string]string{}, usedLemmas: map[string]bool{}}
+		specConsts: map[string]Term{}, realSpecMemo: map[string]bool{}, usedAxioms: map[string]string{}, recMemo: map[string]bool{}, usedLemmas: map[string]bool{}}
 	e.fset = token.NewFileSet()
 	cfg := &packages.Config{
 		Mode: packages.NeedName | packages.NeedFiles | packages.NeedSyntax | packages.NeedTypes | packages.NeedTypesInfo | packages.NeedImports | packages.NeedDeps | packages.NeedModule,
